@@ -136,7 +136,7 @@ CHECKS['C03'] = dict(
     essential=['kill@store.fetch.enter', 'kill@store.fetch.exit', 'kill@store.store.enter', 'kill@store.store.exit', 'kill@store.batch.enter',
                'kill@store.batch.exit', 'kill@sign.enter', 'kill@sign.exit', 'kill@return', 'kill@released', 'double-crash', 'external-sigkill',
                'kill-after-a-release', 'traced', 'release-markers-checked-for-durability', 'record-checked-at-sign-invocation',
-               'history-with-all-crash-points-enumerated'],
+               'history-with-all-crash-points-enumerated', 'history-with-concurrent-requests', 'l1-requests-sent-concurrently'],
     assumptions=['strace -f -y is available and ptrace is permitted', 'badger recovery code and the kernel are trusted',
                  'a Dirk that cannot restart refuses everything (class restart-failed, not a violation)'],
 )
@@ -220,11 +220,12 @@ CHECKS['C13'] = dict(
                 'rapid adds plans of 1-3 faults with ids up to 2^64-1.'),
     level_note='Commit-stage faults are outside the statement (C12 covers tampered commit replies). A recipient panic is recovered by the harness network and reported; in production nothing would recover it.',
     parts=[part('TestC13Enum', 1, 1, qshards=4, tshards=8, no_rapid_count=True), part('TestC13Random', 150, 1500)],
-    rule=('enumerated table: 5 configurations x every message position (n prepares, n executes, n(n-1)/2 contributions) x 3/17 fault kinds, run completely in both tiers and sharded by index; '
+    rule=('enumerated table: 5 configurations x every message position (n prepares, n executes, n(n-1)/2 contributions) x 3/19 fault kinds, run completely in both tiers and sharded by index; '
           'plus rapid-generated multi-fault plans; a case is non-trivial iff the run reached the faulted message and the fault was delivered; distinct = sha256 of the case JSON'),
     essential=['enumerated-single-fault-cases', 'multi-fault-plan'] + ['delivered:' + k for k in ['lost', 'error-reply', 'duplicate', 'share-random', 'share-for-other-id',
                'commitment-altered', 'vector-short-consistent', 'vector-long-consistent', 'vector-truncated', 'vector-extended', 'reply-share-random', 'reply-share-for-other-id',
-               'reply-commitment-altered', 'reply-vector-short-consistent', 'reply-vector-long-consistent', 'reply-vector-truncated', 'reply-vector-extended']],
+               'reply-commitment-altered', 'reply-vector-short-consistent', 'reply-vector-long-consistent', 'reply-vector-truncated', 'reply-vector-extended',
+               'replay-share-random', 'replay-share-for-other-id']],
     assumptions=['herumi BLS is trusted', 'participants are chosen by Dirk (map iteration), so a fault position is "the k-th message of its kind"'],
 )
 
@@ -290,7 +291,7 @@ CHECKS['C10'] = dict(
     rule=('a case is a history of 1-10 steps; non-trivial iff some successfully imported well-formed entry was newer than the database in one field and older in another, or a file named one key twice; '
           'distinct = sha256 of the case JSON'),
     essential=['imports-exit-0-wellformed', 'entry-newer-in-one-field-older-in-another', 'file-names-a-key-twice', 'metadata-rejections', 'malformed-file-exit-0',
-               'first-import-into-empty-db', 'import-after-restart', 'probes'],
+               'first-import-into-empty-db', 'import-after-restart', 'probes', 'file-with-value>=2^63-1'],
     assumptions=['the interchange merge logic lives in package main and is reached only through the binary'],
 )
 
